@@ -17,18 +17,18 @@ def spec_req(c, G, idx, li):
     nodew = [None] * c["n"]
     for i, w in enumerate(c["nodew"]):
         nodew[li[i]] = w
-    ew = []
-    for (u, v), w in zip(c["edges"], c["edgew"]):
-        ew.append([li[u], li[v], w])
+    ew, ewf = [], []       # weight_label table (symmetric) and rate_function table (per ordered pair)
+    for (u, v), w, wr in zip(c["edges"], c["edgew"], c.get("edgew_rev") or c["edgew"]):
+        ew.append([li[u], li[v], w]); ewf.append([li[u], li[v], w])
         if not c.get("directed"):
-            ew.append([li[v], li[u], w])
+            ew.append([li[v], li[u], w]); ewf.append([li[v], li[u], wr])
     ic = [None] * c["n"]
     for i, s in enumerate(c["IC"]):
         ic[li[i]] = s
     return dict(n=c["n"], succ=gen.adj_lists(G, idx), pred=gen.pred_lists(G, idx), directed=bool(c.get("directed")),
                 ret=c["return_statuses"],
                 spont=[[a, b, r, (nodew if m else None)] for a, b, r, m in sp],
-                induced=[[a, b, d, r, (ew if m else None)] for (a, b), (c_, d), r, m in ind],
+                induced=[[a, b, d, r, (ewf if m == "fn" else (ew if m else None))] for (a, b), (c_, d), r, m in ind],
                 IC=ic, tmin=c["tmin"], tmax=c["tmax"])
 
 
